@@ -61,7 +61,7 @@ package simple
 //@   ensures [* C07 C15] the-channel-the-inner-discipline-reports-on: result == dsc.priority.err
 
 //@ func Opts.isValid
-//@   ensures [*] (result == nil) <==> (opts.Handle != nil)
+//@   ensures [* C01 C02] (result == nil) <==> (opts.Handle != nil)
 
 // ---------------------------------------------------------------- C20: ownership discipline
 //@ confine Discipline
